@@ -17,7 +17,7 @@ NA = {
 }
 CLAIMED["C02"] = dict(
    text="Decides, for every representation tag and every format string at once, the structural necessary conditions of `formatting is independent of the internal representation`: each accessor/dispatch the date printers reach handles every representation that can reach it; no print-record slot is printed before its lazy fill-in; the overloaded day slot keeps its tag; the printers do not branch on the tag outside exhaustive dispatches. Also checks the Hijri month table (monotone, 29/30-day steps, equal to data/ummulqura.tab). Does not decide that conversions are arithmetically correct or that round trips are identities.",
-   note="Tag-specialised abstract interpretation (bounded powerset of states, cells addressed by ASTRecordLayout) of dt_strfd/dt_strfdt and the helpers that receive the print record; assumes a valid date has non-zero components once filled; accessors signal `unhandled` by their default branch. 10 recorded known findings (Hijri values and three exotic accessor gaps).",
+   note="Tag-specialised abstract interpretation (bounded powerset of states, cells addressed by ASTRecordLayout) of dt_strfd/dt_strfdt and the helpers that receive the print record; assumes a valid date has non-zero components once filled; accessors signal `unhandled` by their default branch. 5 recorded known findings (day-of-year, week counts and business day of Hijri dates: semantics undefined by the project); five further gaps found by the rule were repaired.",
    technique="static analysis: tag-specialised abstract interpretation over clang CFGs (typestate of tagged unions), dispatch-coverage matrix, table check",
    ref="DESIGN.md §4 C02")
 PENDING = {}
